@@ -60,6 +60,8 @@ def c18(run):
     from rules import r_ownlocal, r_holder
     A = r_ownlocal.run(run, P)      # strings / binaries / optlists / cache keys created in a function: released on every path, error paths included
     r_holder.run(run, P, set(A.spec.creators) | set(Apdu.spec.creators))
+    from rules import r_uaf
+    r_uaf.run(run, P)
     run.assumptions = ASSUME_COMMON + ["every allocation funnels through coap_malloc_type/coap_realloc_type/malloc/calloc/realloc/strdup",
                                        "'the next operation succeeds' is NOT decided"]
     return run.finish(
@@ -68,7 +70,8 @@ def c18(run):
         "(R-OWN-PDU); after a shallow struct copy no destructor that frees a still-aliased owned field of the copy is called before that field was "
         "given its own buffer (R-SHALLOW-ALIAS); a record allocated in a function is not released with the raw allocator call while fields of it still "
         "hold objects created on that path (R-HOLDER-LEAK); strings, binaries, option lists and cache keys created in a function are released, stored, returned or handed "
-        "on on every path, error paths included (R-OWN-LOCAL). Necessary for 'allocation failure is survived without crash or leak'.")
+        "on on every path, error paths included (R-OWN-LOCAL); a local pointer handed to a (computed, must-free) destructor is not used again before it is "
+        "re-assigned (R-USE-AFTER-DESTROY). Necessary for 'allocation failure is survived without crash or leak'.")
 
 
 def c12(run):
@@ -271,6 +274,7 @@ def c10(run):
         run.require(P.has(fn), 'anchor function %s() of C10 not found' % fn)
     r_ownpdu.run(run, P, only=set(REPLY_FUNCS))
     r_reply.run(run, P)
+    r_reply.run_ack_con(run, P)
     from rules import r_suppress
     r_suppress.run(run, P)
     from rules import r_ownnode
@@ -348,6 +352,7 @@ def c14(run):
     from rules import r_oscrole
     r_oscrole.run(run, P)
     r_oscsplit.run_flag_reach(run, P)
+    r_oscsplit.run_match_acc(run, P)
     run.min_instances('R-OSC-SPLIT', 7)
     run.assumptions = ASSUME_COMMON + ["byte equality with an independent RFC 8613 implementation (COSE object, AAD, nonce, AES-CCM output) and the round trip are NOT decided"]
     return run.finish(
